@@ -316,3 +316,42 @@ Definition object_from_file_with (fl : oflags) (deny : option Z) (fs : fsys) (p 
   end.
 
 Definition object_from_file_fs := object_from_file_with FROM_FILE_FLAGS.
+
+(* ------------------------------------------------------------------ the descriptor is the caller's *)
+
+(* json_object_from_fd(_ex) / json_object_to_fd get a descriptor that somebody else opened: it
+   stands at some position [pos] of its file (the caller may have consumed a header or an earlier
+   document), and the functions do nothing to it but read() resp. write() — the model has no
+   other descriptor operation (no lseek, pread, fstat, ftruncate, ...); that the C code makes no
+   other call is tied by recording stubs in harness/drv_fd.c.  A read therefore sees
+   [zskipn pos file] and leaves the position advanced by what the read() calls returned. *)
+
+(* bytes the read() calls of the loop take from the descriptor *)
+Fixpoint read_taken (app_ok : Z -> Z -> bool) (sched : list xfer) (rest : list byte) (bpos : Z) : Z :=
+  match sched with
+  | [] => 0
+  | Err _ :: _ => 0
+  | Short n :: sched' =>
+      let ret := zlen (zfirstn (Z.min n JSON_FILE_BUF_SIZE) rest) in
+      if 0 <? ret then
+        if app_ok bpos ret then ret + read_taken app_ok sched' (zskipn ret rest) (bpos + ret)
+        else ret
+      else 0
+  end.
+
+(* json_object_from_fd_ex on a descriptor standing at [pos] of [file]: result and final position
+   (for depth < 1 no read is made) *)
+Definition object_from_fd_at (parse : tokener) (app_ok : Z -> Z -> bool) (sched : list xfer)
+                             (file : list byte) (pos : Z) (in_depth : Z) : rres * Z :=
+  let depth := if in_depth =? -1 then JSON_TOKENER_DEFAULT_DEPTH else in_depth in
+  (object_from_fd_ex parse app_ok sched (zskipn pos file) in_depth,
+   if depth <? 1 then pos else pos + read_taken app_ok sched (zskipn pos file) 0).
+
+(* json_object_to_fd on a descriptor standing at [pos] of a file holding [old] ([app]: opened
+   with O_APPEND): result, the file afterwards, final position *)
+Definition object_to_fd_at (sched : list xfer) (old : list byte) (pos : Z) (app : bool)
+                           (obj_null : bool) (ser : option (list byte)) : wout * list byte * Z :=
+  let r := object_to_fd sched obj_null ser in
+  let at_ := if app then zlen old else pos in
+  (r, desc_write old at_ (wout_dev r),
+   match wout_dev r with [] => pos | d => at_ + zlen d end).
